@@ -402,6 +402,7 @@ def packing(ctx):
         ctx.missing(R, 'anchor:pack_size', 'pack_size not found')
     else:
         seen = set()
+        ivs = {}
         for p in explore(f, max_visits=1):
             if p.end != 'return':
                 continue
@@ -421,6 +422,9 @@ def packing(ctx):
             okshape = True
             for d in p.decisions:
                 e, val = d[2], d[3]
+                if e[0] == 'bin' and e[3][0] == 'param' and const_eval(e[2]) is not None and e[1] in ('Lt', 'Le', 'Ge', 'Gt'):
+                    # range patterns compare with the constant on the left (`0x100 <= n`): flip
+                    e = ('bin', {'Lt': 'Gt', 'Gt': 'Lt', 'Le': 'Ge', 'Ge': 'Le'}[e[1]], e[3], e[2])
                 c = const_eval(e[3]) if e[0] == 'bin' else None
                 if not (e[0] == 'bin' and e[2][0] == 'param' and c is not None and e[1] in ('Lt', 'Le', 'Ge', 'Gt')):
                     okshape = False
@@ -446,12 +450,29 @@ def packing(ctx):
                         lo = max(lo, c + 1)
                     else:
                         hi = c if hi is None else min(hi, c)
+            if not okshape:
+                seen.add(k)
+                ctx.undecided(R, 'pack_size:%d' % k, 'pack_size returns %d under a condition that is not a comparison of n with constants' % k, fn=f)
+                continue
+            UMAX = (1 << 64) - 1
+            hi_ = UMAX if hi is None else hi
+            if lo > hi_:
+                continue            # no u64 satisfies the comparisons of this path (`0 <= n` false, nested range tests): infeasible
+            ivs.setdefault(k, []).append((lo, hi_))
+        for k, lst in sorted(ivs.items()):
+            lst.sort()
+            merged = [list(lst[0])]
+            for lo, hi_ in lst[1:]:
+                if lo <= merged[-1][1] + 1:
+                    merged[-1][1] = max(merged[-1][1], hi_)
+                else:
+                    merged.append([lo, hi_])
             want_lo = 0 if k == 1 else 1 << (8 * (k - 1))
-            want_hi = (1 << (8 * k)) - 1 if k < 8 else None
+            want_hi = (1 << (8 * k)) - 1
             seen.add(k)
-            ctx.check(R, okshape and lo == want_lo and hi == want_hi, 'pack_size:%d' % k,
-                      'pack_size returns %d for n in [%#x, %s] but %d bytes hold exactly [%#x, %s]: a value on the boundary is stored in too few bytes and read back truncated' % (
-                          k, lo, hex(hi) if hi is not None else 'max', k, want_lo, hex(want_hi) if want_hi is not None else 'max'), fn=f)
+            ctx.check(R, merged == [[want_lo, want_hi]], 'pack_size:%d' % k,
+                      'pack_size returns %d for n in %s but %d bytes hold exactly [%#x, %#x]: a value on the boundary is stored in too few bytes and read back truncated' % (
+                          k, ' u '.join('[%#x, %#x]' % (a_, b_) for a_, b_ in merged), k, want_lo, want_hi), fn=f)
         ctx.check(R, seen == set(range(1, 9)), 'pack_size:widths', 'pack_size must produce every width 1..8 (found %s)' % sorted(seen), fn=f)
     # pack_uint_in: byte i = (n >> 8i) as u8, written as buf[..nbytes]
     f = lib.fn('bytes::pack_uint_in')
@@ -504,6 +525,15 @@ def packing(ctx):
                                         any(y[0] == 'bin' and y[1] == 'Mul' and ('const', 8) in (y[2], y[3]) and any(z[0] == 'field' and z[2] == '0' and z[1][0] == 'param' for z in walk(y)) for y in walk(v[1][3]))
                 if step:
                     break
+        if not step:
+            # wtr.write_all(&n.to_le_bytes()[..nbytes])
+            for p in explore(f, max_visits=1, havoc=True):
+                for (k, bid, callee, args, t) in path_calls(p, expand=False):
+                    if f.callee_decl(t) == SM.IO_WRITE_ALL and len(args) == 2:
+                        a = args[1]
+                        if is_call(a, '::index') and is_call(a[2][0], 'to_le_bytes') and a[2][0][2][0][0] == 'param' and a[2][1][0] == 'agg' and a[2][1][1].endswith('ops::RangeTo') and \
+                                any(x[0] == 'param' for x in walk(dict(a[2][1][2])['end'])):
+                            step = wr = True
         ctx.check(R, step, 'pack_uint_in:little-endian', 'byte i of a packed integer must be bits 8i..8i+7 of the value (store n as u8, then n >>= 8, i counting up from 0)', fn=f)
         ctx.check(R, wr, 'pack_uint_in:width', 'exactly the first nbytes bytes of the buffer must be written', fn=f)
     f = lib.fn('bytes::unpack_uint')
@@ -545,6 +575,23 @@ def packing(ctx):
                         byte_is_item = any(x[0] == 'field' and x[2] == '1' and x[1][0] == 'param' and x[1][2] == 3 for x in walk(sh[2]))
                         pos_is_index = any(x[0] == 'field' and x[2] == '0' and x[1][0] == 'param' and x[1][2] == 3 for x in walk(sh[3]))
                         step = ok_sh and byte_is_item and pos_is_index
+        le_form = False
+        if not step:
+            # let mut buf = [0u8; 8]; buf[..packed.len()].copy_from_slice(packed); u64::from_le_bytes(buf)   with packed = &slice[..nbytes]
+            for p in explore(f, max_visits=1, havoc=True):
+                if p.end != 'return' or not is_call(p.ret(), 'from_le_bytes'):
+                    continue
+                rv = p.ret()
+                zero8 = any(x[0] == 'repeat' and x[1] == ('const', 0) for x in walk(rv))
+                for (k, bid, callee, args, t) in path_calls(p, expand=False):
+                    if isinstance(callee, str) and callee.endswith('::copy_from_slice') and len(args) == 2:
+                        P = args[1]
+                        okP = is_call(P, '::index') and P[2][0][0] == 'param' and P[2][1][0] == 'agg' and P[2][1][1].endswith('ops::RangeTo') and any(x[0] == 'param' for x in walk(dict(P[2][1][2])['end']))
+                        D = args[0]
+                        okD = is_call(D, '::index_mut') and D[2][1][0] == 'agg' and D[2][1][1].endswith('ops::RangeTo') and is_call(dict(D[2][1][2])['end'], '::len') and norm(dict(D[2][1][2])['end'][2][0]) == norm(P) and \
+                            any(x[0] == 'repeat' and x[1] == ('const', 0) for x in walk(D[2][0]))
+                        if okP and okD and zero8:
+                            step = le_form = True
         # every value unpack_uint can return must be that accumulator (or the fold): an extra "fast path" is a second decoder that this
         # rule has not verified (C01-m5: a masked word load that overflows at nbytes = 8)
         extra = []
@@ -554,7 +601,7 @@ def packing(ctx):
                 rv = p.ret()
                 while rv[0] == 'cast':
                     rv = rv[1]
-                okr = (rv[0] in ('havoc', 'phi') and len(rv[1]) == 1 and rv[1][0] in accs_) or rv == ('const', 0) or is_call(rv, '::fold')
+                okr = (rv[0] in ('havoc', 'phi') and len(rv[1]) == 1 and rv[1][0] in accs_) or rv == ('const', 0) or is_call(rv, '::fold') or (le_form and is_call(rv, 'from_le_bytes'))
                 if not okr:
                     extra.append(fmt(rv)[:60])
         ctx.check(R, not extra, 'unpack_uint:single-decoder', 'unpack_uint has a returning path that is not the byte-wise accumulation: %s' % extra[:2], fn=f)
@@ -588,6 +635,17 @@ def packing(ctx):
                         idx = p.sym.index_operand_at(s['place'], (k, i))
                         if v[0] == 'index' and is_call(v[1], 'to_le_bytes') and v[1][2][0][0] == 'param' and idx is not None and idx == v[2]:
                             oks.add(idx[1] if idx[0] == 'const' else None)
+                    # one-call form: slice[..W].copy_from_slice(&n.to_le_bytes())
+                    for (k, bid, callee, args, t) in path_calls(p):
+                        if isinstance(callee, str) and callee.endswith('::copy_from_slice') and len(args) == 2 and any(is_call(x, 'to_le_bytes') and x[2][0][0] == 'param' for x in walk(args[1])):
+                            rng = [x for x in walk(args[0]) if x[0] == 'agg' and x[1].endswith('ops::RangeTo')]
+                            if rng and dict(rng[0][2]).get('end') == ('const', width) and any(x[0] == 'param' for x in walk(args[0])):
+                                oks |= set(range(width))
+                            else:
+                                oks.add(None)
+            if not oks and ok:
+                ctx.undecided(R, name.rsplit('::', 1)[-1], 'the little-endian store of a fixed-width word is not in a recognised form', fn=w)
+                continue
             ok = ok and oks == set(range(width))
         ctx.check(R, ok, name.rsplit('::', 1)[-1], 'fixed-width words must be written little-endian, byte i of to_le_bytes() at position i, all %d bytes' % width, fn=f)
     for name, width in (('bytes::read_u64_le', 8), ('bytes::read_u32_le', 4)):
